@@ -214,6 +214,19 @@ impl MatchResult {
     }
 }
 
+/// Verification hook (only with `--cfg sqruff_verif`): public wrappers of the crate-private
+/// constructors used by every combinator.
+#[cfg(sqruff_verif)]
+impl MatchResult {
+    pub fn verif_append(self, other: &MatchResult) -> Self {
+        self.append(other)
+    }
+
+    pub fn verif_wrap(self, outer_matched: Matched) -> Self {
+        self.wrap(outer_matched)
+    }
+}
+
 impl<'a> From<&'a MatchResult> for Cow<'a, MatchResult> {
     fn from(t: &'a MatchResult) -> Self {
         Cow::Borrowed(t)
